@@ -107,7 +107,8 @@ QUOTED_STR_FUNCTIONS_TO_STATEMENTS_NAMES = [
 ]
 
 KEYWORDS = "|".join(
-    chain(
+    re.escape(keyword)
+    for keyword in chain(
         (
             "ABS",
             "AND",
